@@ -295,9 +295,12 @@ def mixin(comment, cont, linelen, indent):
 class KernelHarness(object):
     """user body of len(shape) lines; line i has shape[i] symbolic characters."""
 
-    def __init__(self, shape, comment, names, combo, indent=1, twin=False):
+    def __init__(self, shape, comment, names, combo, indent=1, twin=False, via_file=None):
+        """via_file=(marker indentation, chars of text outside the markers): the user's lines are
+        supplied in a hand-written splicer file that the real reader (get_splicers) reads first."""
         self.shape, self.comment, self.names, self.combo = tuple(shape), comment, list(names), tuple(combo)
         self.indent, self.twin = indent, twin
+        self.via_file = tuple(via_file) if via_file else None
 
     def mk_lines(self, e):
         self.zs = [[z3.Int("c%d_%d" % (i, k)) for k in range(n)] for i, n in enumerate(self.shape)]
@@ -314,7 +317,20 @@ class KernelHarness(object):
         d = tree
         for nm in self.names[:-1]:
             d = d.setdefault(nm, {})
-        if has_user:
+        if has_user and self.via_file:
+            mi, nout = self.via_file
+            self.zout = [[z3.Int("o%d_%d" % (i, k)) for k in range(nout)] for i in range(2)]
+            for zs in self.zout:
+                for z in zs:
+                    e.assume(z3.And(z >= 1, z <= 0x10FFFF, z != NL))
+            outside = [[SymChar(e, z) for z in zs] for zs in self.zout]
+            dotted = ".".join(self.names)
+            flines = [outside[0], list(" " * mi + self.comment + " splicer begin " + dotted)]
+            flines += [list(u.c) for u in user]
+            flines += [list(" " * mi + self.comment + " splicer end " + dotted), outside[1]]
+            tree = read_back(flines)
+            self.file_tree = tree
+        elif has_user:
             d[self.names[-1]] = user
         cont = " &" if self.comment == "!" else ""
         w = mixin(self.comment, cont, 72, self.indent)
@@ -347,8 +363,12 @@ class KernelHarness(object):
 
     def witness(self, m, what):
         body = ["".join(chr(m.eval(z, model_completion=True).as_long()) for z in zs) for zs in self.zs]
-        return {"level": "kernel", "user_lines": body, "comment": self.comment, "names": self.names,
-                "combo": list(self.combo), "indent": self.indent, "what": what}
+        w = {"level": "kernel", "user_lines": body, "comment": self.comment, "names": self.names,
+             "combo": list(self.combo), "indent": self.indent, "what": what}
+        if self.via_file and self.combo[1]:
+            w["via_file"] = list(self.via_file)
+            w["outside"] = ["".join(chr(m.eval(z, model_completion=True).as_long()) for z in zs) for zs in self.zout]
+        return w
 
     def judge(self, e, kind, value):
         cls = "kernel/%s/%s" % (self.comment, "".join("FUD"[i] if c else "-" for i, c in enumerate(self.combo)))
@@ -363,7 +383,22 @@ class KernelHarness(object):
         expect = [list(s) for s in self.force] if has_force else user if has_user else \
             [list(s) for s in self.default] if has_default else []
         blocks, err = find_blocks(lines, self.comment)
-        if err:
+        if has_user and self.via_file:
+            got0 = lookup(self.file_tree, name)
+            top = self.file_tree
+            only = True
+            for nm in self.names:
+                only = only and isinstance(top, dict) and list(top) == [nm]
+                top = top.get(nm) if isinstance(top, dict) else None
+            if got0 is None:
+                J.valid(False, "block %r not found by the splicer file reader" % name)
+            elif not only:
+                J.valid(False, "the splicer file reader produced entries from text outside the markers")
+            else:
+                block_equiv(J, user, [chars_of(g) for g in got0], "block as read from the splicer file")
+        if J.fail:
+            pass
+        elif err:
             J.valid(False, err)
         elif list(blocks) != [name] or len(blocks[name]) != 1:
             J.valid(False, "expected exactly one block %r, found %r" % (name, list(blocks)))
@@ -630,7 +665,8 @@ def confirm(w):
         return run
 
     if w["level"] == "kernel":
-        h = KernelHarness([len(s) for s in lines], w["comment"], w["names"], w["combo"], w.get("indent", 1))
+        h = KernelHarness([len(s) for s in lines], w["comment"], w["names"], w["combo"], w.get("indent", 1),
+                          via_file=w.get("via_file"))
     else:
         h = PipelineHarness(w["library"], [len(s) for s in lines], w["subset"])
     orig_mk = None
@@ -640,6 +676,9 @@ def confirm(w):
         for i, s in enumerate(lines):
             for k, ch in enumerate(s):
                 e.assume(z3.Int("c%d_%d" % (i, k)) == ord(ch))
+        for i, s in enumerate(w.get("outside", [])):
+            for k, ch in enumerate(s):
+                e.assume(z3.Int("o%d_%d" % (i, k)) == ord(ch))
         return h.run(e)
 
     def cb(e, kind, value):
@@ -665,7 +704,14 @@ def plain_kernel(w):
     d = tree
     for nm in names[:-1]:
         d = d.setdefault(nm, {})
-    if has_user:
+    if has_user and w.get("via_file"):
+        mi = w["via_file"][0]
+        dotted = ".".join(names)
+        outside = w.get("outside", ["", ""])
+        flines = [outside[0], " " * mi + w["comment"] + " splicer begin " + dotted] + list(w["user_lines"]) + \
+                 [" " * mi + w["comment"] + " splicer end " + dotted, outside[1]]
+        tree = read_back([list(x) for x in flines])
+    elif has_user:
         d[names[-1]] = list(w["user_lines"])
     cont = " &" if w["comment"] == "!" else ""
     m = mixin(w["comment"], cont, 72, w.get("indent", 1))
@@ -727,6 +773,14 @@ def main():
                 names = ["function", "get_name"] if comment != "!" else ["namespace", "ns", "class", "Circle", "method", "area"]
                 specs.append(("harness.C12", "make_kernel", dict(shape=shape, comment=comment, names=names, combo=combo)))
                 labels.append(("kernel", shape, comment, combo))
+    fshapes = [(1,), (2,), (3,), (1, 1), (2, 2)] if tier == "quick" else [(1,), (2,), (3,), (4,), (1, 1), (2, 2), (3, 2), (1, 1, 1)]
+    for shape in fshapes:
+        for comment in ("//", "!", "#"):
+            for mi in (0, 2, 4):
+                names = ["function", "get_name"] if comment != "!" else ["namespace", "ns", "class", "Circle", "method", "area"]
+                specs.append(("harness.C12", "make_kernel", dict(shape=shape, comment=comment, names=names,
+                                                                 combo=(False, True, True), via_file=(mi, 2))))
+                labels.append(("splicer-file", shape, comment, mi))
     for shape in pshapes:
         for lib, subset in plibs:
             specs.append(("harness.C12", "make_pipeline", dict(libname=lib, shape=shape, subset=subset)))
@@ -787,6 +841,8 @@ def main():
         "bounds": {"kernel_shapes(lines x chars)": [list(s) for s in shapes], "pipeline_shapes": [list(s) for s in pshapes],
                    "pipeline_libraries": [list(p) for p in plibs], "comment_styles": ["//", "!", "#"],
                    "precedence_combos(force,user,default)": [list(c) for c in combos],
+                   "splicer_file_shapes": [list(s) for s in fshapes], "splicer_file_marker_indentation": [0, 2, 4],
+                   "splicer_file_text_outside_markers": "two lines of 2 arbitrary characters",
                    "chars": "every code point except newline, within the stated domain"},
         "solver": {"name": "z3 " + z3.get_version_string(), "queries": total.stats.queries, "solver_s": round(total.stats.solver_s, 2)},
         "pipeline_blocks_checked": total.counters.get("blocks_checked", 0),
